@@ -64,8 +64,6 @@ Proof. intros H. unfold readline_check. rewrite (split_crlf_app_none acc buf H).
 
 Lemma firstn_skipn_nonempty (k : nat) (l : list Z) : (1 <= k)%nat -> l <> [] -> firstn k l <> [].
 Proof. destruct k; [lia|]. destruct l; [congruence|]. discriminate. Qed.
-Lemma chunk_len_pos k : (1 <= chunk_len k)%nat.
-Proof. unfold chunk_len. destruct (Z.ltb_spec k 1); lia. Qed.
 
 (* ---------- _readline ---------- *)
 Theorem readline_stream : forall cs, ff cs -> forall avail acc buf n,
@@ -97,7 +95,7 @@ Proof.
       * (* a chunk *)
         destruct avail as [|a0 av].
         -- rewrite !app_nil_r, E1. exists cs, (S n). split; [reflexivity|apply (ff_tail _ _ Hff)].
-        -- specialize (IH (ff_tail _ _ Hff) (skipn (chunk_len k) (a0 :: av)) (acc ++ buf) (firstn (chunk_len k) (a0 :: av)) (S n) E1).
+        -- specialize (IH (ff_tail _ _ Hff) (skipn (chunk_len k (a0 :: av)) (a0 :: av)) (acc ++ buf) (firstn (chunk_len k (a0 :: av)) (a0 :: av)) (S n) E1).
            rewrite <- !app_assoc in IH. rewrite firstn_skipn in IH. exact IH.
       * (* EINTR: recv is retried *)
         apply (IH (ff_tail _ _ Hff) avail acc buf (S n) Hacc).
@@ -187,7 +185,7 @@ Proof.
     + destruct avail as [|a0 av].
       * rewrite app_nil_r. destruct Hinv as (Hr & Hpos & _).
         destruct (Z.geb_spec (zlen acc) (size + 2)); [lia|]. exists cs, (S n). split; [reflexivity|apply (ff_tail _ _ Hff)].
-      * set (d := firstn (chunk_len k) (a0 :: av)). set (av' := skipn (chunk_len k) (a0 :: av)).
+      * set (d := firstn (chunk_len k (a0 :: av)) (a0 :: av)). set (av' := skipn (chunk_len k (a0 :: av)) (a0 :: av)).
         assert (Hsplit : a0 :: av = d ++ av') by (symmetry; apply firstn_skipn).
         cbv zeta.
         destruct (Z.gtb_spec (rlen - zlen d) 0) as [G|G].
@@ -298,7 +296,7 @@ Proof.
     + destruct c as [k| |e|]; try (inversion Hff as [|? ? Hc _]; destruct Hc).
       * destruct avail as [|a0 av].
         -- rewrite app_nil_r, E1. exists cs, (S n). split; [reflexivity|apply (ff_tail _ _ Hff)].
-        -- specialize (IH (ff_tail _ _ Hff) (skipn (chunk_len k) (a0 :: av)) (buf ++ firstn (chunk_len k) (a0 :: av)) (S n)).
+        -- specialize (IH (ff_tail _ _ Hff) (skipn (chunk_len k (a0 :: av)) (a0 :: av)) (buf ++ firstn (chunk_len k (a0 :: av)) (a0 :: av)) (S n)).
            rewrite <- app_assoc, firstn_skipn in IH. exact IH.
       * apply (IH (ff_tail _ _ Hff) avail buf (S n)).
 Qed.
